@@ -29,16 +29,14 @@ def run(repo, rep, tier):
     rep.saw(oa), rep.saw(outf)
 
     # ---- rule 1: non-interference -----------------------------------------------------------------------------------
-    sl = Slice(oa)
-    R = sl.closure({'texts'}, before=sl.last_def_line('texts'))
-    bad = sorted(r for r in R if any(r == p or r.startswith(p + '.') for p in PRESENTATION) or r == 'out' or r.startswith('out.'))
-    rep.check('noninterference', 'the (level, note) list of an algorithm reads no presentation option', not bad, oa, 'findings depend on presentation state: %s' % bad, sample={'rule': 'noninterference', 'slice': sorted(R)})
-    R2 = sl.closure({'program_retval'})
-    bad = sorted(r for r in R2 if any(r == p or r.startswith(p + '.') for p in PRESENTATION) or r.startswith('out.'))
-    rep.check('noninterference', 'the running status reads no presentation option', not bad, oa, 'status depends on presentation state: %s' % bad)
+    # the per-name renderer, by interpretation (props/_renderer.py): for every name of the scenario family the returned status and the unknown-name
+    # list are the same under every combination of batch / verbose / padding width, and every note of the name is printed (once) unless it is a
+    # non-first, empty note in non-verbose mode
+    from props import _renderer
+    _renderer.verify(repo, rep, ['noninterference', 'emit'], {'noninterference': 'noninterference', 'emit': 'drop'})
     # the same for the whole chain that produces the exit status (data and control dependence, joined at the call sites)
     from props import _status
-    for fname, fnode, R in _status.status_slices(repo):
+    for fname, fnode, R in _status.status_slices(repo, oa_by_model=True):
         rep.saw(fnode)
         bad = sorted(r for r in R if any(r == p or r.startswith(p + '.') for p in PRESENTATION) or r.startswith('out.') or r in ('is_json_output',))
         rep.check('noninterference', 'the exit status computed by %s reads no presentation option or output-buffer state' % fname, not bad, fnode,
@@ -55,51 +53,11 @@ def run(repo, rep, tier):
                   stmt='in-place edit of a parsed list in %s' % _f._qualname)
     if not _edits:
         rep.ob('noninterference', 'no function on the audit path edits a parsed name-list in place (%d functions)' % _nf, True)
-    # presentation reads are confined to padding/prefix/verbosity of continuation lines
-    pres_reads = [n for n in walk_no_nested(oa) if isinstance(n, ast.Attribute) and unparse(n) in ('out.batch', 'out.verbose')]
-    rep.floor('noninterference', 'presentation reads in output_algorithm', len(pres_reads), 2)
-
-    # ---- rule 2: verbose/batch drop nothing rated ---------------------------------------------------------------------
-    fold = [n for n in walk_no_nested(oa) if isinstance(n, ast.For) and unparse(n.iter) == 'texts']
-    if len(fold) != 1:
-        raise AnalysisError('per-note loop not found')
-    emits = [n for n in walk_no_nested(fold[0]) if isinstance(n, ast.Call) and isinstance(n.func, ast.Name) and n.func.id == 'f']
-    rep.floor('drop', 'emit sites in the per-note loop', len(emits), 3)
-    atz = text_atomizer({'first': 'first', 'out.verbose': 'verbose', "text != ''": '!empty', "text == ''": 'empty'})
-    # guards of emit sites may read only {first, out.verbose, text emptiness}: any other presentation read is a violation
-    known_atoms = {'first', 'out.verbose', "text != ''", "text == ''"}
-    for e in emits:
-        for t, p, k in path_condition(e, stop=fold[0]):
-            for a in ast.walk(t):
-                if isinstance(a, ast.Attribute) and attr_chain(a) and (attr_chain(a).startswith('out.') or attr_chain(a).startswith('aconf.')) and attr_chain(a) != 'out.verbose':
-                    rep.check('drop', 'emit guards read no presentation option besides verbose', False, a, 'whether a rated line is printed depends on %s (guard `%s`): the option filters findings inside the renderer' % (attr_chain(a), unparse(t)[:80]))
-                    return_early = True
-    if any(not o[2] and o[0] == 'drop' for o in rep.obligations):
-        pass
-    badrows = []
-    skip_table = any(not o[2] and o[0] == 'drop' for o in rep.obligations)
-    for bits in ([] if skip_table else itertools.product([False, True], repeat=3)):
-        v = dict(zip(['first', 'verbose', 'empty'], bits))
-        n_emit = 0
-        for e in emits:
-            conds = [(t, p) for t, p, k in path_condition(e, stop=fold[0]) if k in ('if', 'guard')]
-            if all(eval_prop(t, atz, v) == p for t, p in conds):
-                n_emit += 1
-        want = 1 if (v['first'] or v['verbose'] or not v['empty']) else 0
-        rep.evals()
-        if n_emit != want:
-            badrows.append((v, n_emit, want))
-    rep.check('drop', 'a note line is emitted exactly once unless it is a non-first, non-verbose, empty note (8 rows)', not badrows, fold[0],
-              'per-note emission differs: %s emits %s line(s), expected %s' % (badrows[0] if badrows else ({}, 0, 0)), sample={'rule': 'drop', 'rows': 8})
+    # ---- rule 2: verbose/batch drop nothing rated (renderer model above, clause 'emit') ------------------------------------------------
     db2 = ce.lookup('ssh2_kexdb', 'SSH2_KexDB.MASTER_DB')
     db1 = ce.lookup('ssh1_kexdb', 'SSH1_KexDB.MASTER_DB')
     empties = [(c, n) for db in (db1, db2) for c, e in db.items() for n, rows in e.items() for r in rows[1:3] for t in r if not t]
     rep.check('drop', 'no fail/warn note in the tables is empty (so no rated note is dropped)', not empties, repo.cls('ssh2_kexdb', 'SSH2_KexDB'), 'empty fail/warn note for %s' % empties[:3])
-    # the name part of each emitted line does not depend on options; only padding does
-    for e in emits:
-        u = uses(e.args[0])
-        rep.check('drop', 'emitted line is built from prefix, name, comment/padding: %s' % unparse(e)[:50], 'alg_name' in u and 'prefix' in u, e, 'emitted line lacks name or prefix')
-
     # ---- rule 3: level filter ---------------------------------------------------------------------------------------------
     pr = repo.func('outputbuffer', 'OutputBuffer._print')
     rep.saw(pr)
